@@ -256,7 +256,7 @@ def gen_line(rng):
 def gen_block(rng, indent, depth, out):
     n = rng.choice([1, 1, 2, 3])
     for _ in range(n):
-        if depth < 3 and rng.random() < 0.3:
+        if depth < (6 if rng.random() < 0.15 else 3) and rng.random() < 0.3:
             head = rng.choice(["if x, do:", "f x, y =", "for! 0..n, i =>", "C = Class {.x = Int}", "x ->", "do!:", "match x:", "g(a) ="])
             out.append(" " * indent + head + rng.choice(["", "", " # c"]))
             gen_block(rng, indent + rng.choice([4, 4, 4, 2, 1, 8]), depth + 1, out)
@@ -281,6 +281,24 @@ def gen_program(rng):
     if rng.random() < 0.05:
         s = s.replace("\n", "\r\n")
     return s
+
+
+def gen_indent_walk(rng):
+    """indentation stress: short lines whose widths walk up by small steps and fall back to earlier (mostly valid) levels"""
+    levels = [0]
+    out = []
+    for _ in range(rng.randint(3, 14)):
+        k = rng.random()
+        if k < 0.45:
+            levels.append(levels[-1] + rng.choice([1, 1, 2, 2, 3, 4]))
+        elif k < 0.8 and len(levels) > 1:
+            del levels[rng.randrange(1, len(levels)):]
+        elif k < 0.88:
+            w = max(0, levels[-1] + rng.choice([-3, -1, 1]))      # possibly an invalid dedent
+            levels = [l for l in levels if l < w] + [w]
+        body = rng.choice(["x", "y = 1", "f x:", "a, b", "(", ")", "# c", "", "z \\", '"s"', "[1,", "2]"])
+        out.append(" " * levels[-1] + body)
+    return "\n".join(out) + rng.choice(["", "\n", "\n  ", "\n\n"])
 
 
 NASTY = list("\\\\\"\"''{}#[]\n\n\t\r  `$!._0e+-x1=()<>:*/,;|&^~?@a") + BIDI[:2] + ODD[:6] + ["\\{", '"""', "'''", "#[", "]#", "    ", "\\\n", "\\x"]
@@ -442,9 +460,9 @@ def run(ctx):
             add(open(f, encoding="utf-8").read(), "er-file")
         except (UnicodeDecodeError, OSError):
             continue
-    n_valid = ctx.scale(900, 20000)
-    n_mal = ctx.scale(900, 20000)
-    n_noise = ctx.scale(300, 6000)
+    n_valid = ctx.scale(900, 12000)
+    n_mal = ctx.scale(900, 12000)
+    n_noise = ctx.scale(300, 4000)
     progs = []
     for _ in range(n_valid):
         p = gen_program(ctx.rng)
@@ -458,13 +476,15 @@ def run(ctx):
         add(q, "malformed")
     for _ in range(n_noise):
         add(gen_noise(ctx.rng), "noise")
+    for _ in range(ctx.scale(400, 6000)):
+        add(gen_indent_walk(ctx.rng), "indent-walk")
     if ctx.thorough:
         k = 0
-        for p in progs[:1500]:
-            for t in all_truncations_inside_strings(p)[:60]:
+        for p in progs[:1000]:
+            for t in all_truncations_inside_strings(p)[:40]:
                 add(t, "truncation")
                 k += 1
-        ctx.cov["exhaustive_truncations"] = "%d truncations at every position inside/around strings, escapes and interpolations of 1500 programs" % k
+        ctx.cov["exhaustive_truncations"] = "%d truncations at every position inside/around strings, escapes and interpolations of 1000 programs" % k
     ctx.log("%d inputs (%d chars)" % (len(texts), sum(len(t) for t in texts)))
     impl = m.run_impl(texts)
     ctx.log("implementation done")
@@ -474,6 +494,7 @@ def run(ctx):
     ctx.log("judge done")
     n_corr = 0
     first_corr = None
+    corr_cases = []
     failing = []
     for t, o, im, mo, v in zip(texts, origin, impl, mod, verdicts):
         ctx.count(o)
@@ -485,11 +506,12 @@ def run(ctx):
                 if i[0] == "E":
                     ctx.count("err:" + (ERR_NAMES[i[1]] if 0 <= i[1] < len(ERR_NAMES) else "unclassified"))
         nontrivial = (nerr == 0 and ntok >= 5) or (nerr >= 1 and ntok >= 2)
-        ctx.case(t, nontrivial=nontrivial, sample={"origin": o, "text": t[:200], "stream": show_items(im)[:12]} if o in ("generated", "malformed") and len(t) < 200 else None)
+        ctx.case(t, nontrivial=nontrivial, sample={"origin": o, "text": t[:200], "stream": show_items(im)[:12]} if o in ("generated", "malformed", "indent-walk") and len(t) < 200 else None)
         if v[0] != 0:
             failing.append((t, o, im, mo, v))
         elif im != mo:
             n_corr += 1
+            corr_cases.append((t, o, im, mo))
             if first_corr is None:
                 first_corr = (t, o, im, mo)
     if m.cat_mismatch:
@@ -514,14 +536,28 @@ def run(ctx):
         if n_corr:
             what.append("%d inputs on which the model's and the lexer's item streams differ" % n_corr)
         case = None
-        if first_corr:
-            t, o, im, mo = first_corr
+        cand = []
+        for t, o, im, mo in corr_cases[:6]:
+            tried = []
 
             def differs(sub):
                 s = "".join(sub)
-                return m.run_impl([s])[0] != m.run_model([s])[0]
+                d = m.run_impl([s])[0] != m.run_model([s])[0]
+                if d:
+                    tried.append(s)
+                return d
             small = "".join(shrink_list(list(t), differs, budget=200)) if len(t) < 4000 else t
-            case = {"text": small, "origin": o, "impl": show_items(m.run_impl([small])[0]), "model": show_items(m.run_model([small])[0])}
+            if case is None:
+                case = {"text": small, "origin": o, "impl": show_items(m.run_impl([small])[0]), "model": show_items(m.run_model([small])[0])}
+            cand += [small] + tried[-40:]
+        # the inputs on which model and lexer differ (and their reductions) are the first candidates for the judge
+        if cand:
+            ci = m.run_impl(cand)
+            cv = m.judge(cand, ci)
+            failing = [(t, "shrunk-disagreement", im, None, v) for t, im, v in zip(cand, ci, cv) if v[0] != 0]
+            if failing:
+                report_failing(ctx, m, failing)
+                return
         # search harder for an input that fails the property itself
         extra = [mutate(ctx.rng, ctx.rng.choice(progs)) for _ in range(ctx.scale(3000, 20000))] + \
                 [gen_program(ctx.rng) for _ in range(ctx.scale(1500, 10000))]
